@@ -128,6 +128,76 @@ Theorem C02_checker_all_mapped : forall L a n, wf_layout_gen L -> a < W64 -> 0 <
   (all_mapped L a n = true <-> forall i, i < n -> a + i < W64 /\ Mapped L (a + i)).
 Proof. exact all_mapped_iff. Qed.
 
+(* ---- implementors that RELY ON THE PROVIDED capability methods (flavours): a region type either
+   writes get_host_address / get_slice itself (own = true, the code of GuestRegionMmap) or inherits the
+   trait's provided body (own = false) ---- *)
+
+(* region-level host pointer: granted only inside the region, and then it is host base + x; a type
+   that provides it grants it exactly for x < len; the provided body refuses everywhere *)
+Theorem C02_region_host_address : forall own ln x,
+  (forall p, fl_get_host_address own ln x = inl p -> x < ln /\ p = x) /\
+  (own = true -> x < ln -> fl_get_host_address own ln x = inl x) /\
+  (own = true -> ln <= x -> fl_get_host_address own ln x = inr EInvalidBackendAddress) /\
+  (own = false -> fl_get_host_address own ln x = inr EHostAddressNotAvailable).
+Proof. exact region_host_address_lemma. Qed.
+
+(* region-level slice [x, x+n): granted only if x + n <= len (exact sum, so a count that would wrap is
+   refused), and then it is (offset x, n bytes); a provider grants exactly those; the provided body refuses *)
+Theorem C02_region_get_slice : forall own ln x n,
+  (forall off c, fl_get_slice own ln x n = inl (off, c) -> x + n <= ln /\ off = x /\ c = n) /\
+  (own = true -> ln < W64 -> x + n <= ln -> fl_get_slice own ln x n = inl (x, n)) /\
+  (own = true -> ln < x + n -> fl_get_slice own ln x n = inr EInvalidBackendAddress) /\
+  (own = false -> fl_get_slice own ln x n = inr EHostAddressNotAvailable).
+Proof. exact region_get_slice_lemma. Qed.
+
+(* the region-wide slice is [0, len) for a provider and refused by the provided get_slice *)
+Theorem C02_region_as_volatile_slice : forall own ln, ln < W64 ->
+  fl_as_volatile_slice own ln = if own then inl (0, ln) else inr EHostAddressNotAvailable.
+Proof. exact region_as_volatile_slice_lemma. Qed.
+
+(* GuestMemory::get_host_address over any flavour, for every find_region meeting its contract *)
+Theorem C02_flavour_host_address : forall (find : layout -> N -> option nat) (inv : layout -> Prop),
+  (forall L, inv L -> wf_layout_gen L) ->
+  (forall L a, inv L -> a < W64 -> find_ok L a (find L a)) ->
+  forall own L a, inv L -> a < W64 ->
+  gm_get_host_address_fl find own L a =
+  Val (match find L a with
+       | Some i => if own then inl (i, a - fst (nth i L dreg)) else inr EHostAddressNotAvailable
+       | None => inr EInvalidGuestAddress end).
+Proof. exact host_address_fl_lemma. Qed.
+
+(* GuestMemory::get_slice over any flavour *)
+Theorem C02_flavour_get_slice : forall (find : layout -> N -> option nat) (inv : layout -> Prop),
+  (forall L, inv L -> wf_layout_gen L) ->
+  (forall L a, inv L -> a < W64 -> find_ok L a (find L a)) ->
+  forall own L a c, inv L -> a < W64 ->
+  gm_get_slice_fl find own L a c =
+  Val (match find L a with
+       | None => inr EInvalidGuestAddress
+       | Some i => let p := nth i L dreg in
+                   if own then (if a + c <=? fst p + snd p then inl (i, a - fst p, c) else inr EInvalidBackendAddress)
+                   else inr EHostAddressNotAvailable
+       end).
+Proof. exact get_slice_fl_lemma. Qed.
+
+(* whatever the flavour: what IS granted lies inside one region and is the right slice / pointer *)
+Theorem C02_flavour_grants_only_inside : forall (find : layout -> N -> option nat) (inv : layout -> Prop),
+  (forall L, inv L -> wf_layout_gen L) ->
+  (forall L a, inv L -> a < W64 -> find_ok L a (find L a)) ->
+  forall own L a c, inv L -> a < W64 ->
+  (forall i off n, gm_get_slice_fl find own L a c = Val (inl (i, off, n)) ->
+     find L a = Some i /\ a + c <= fst (nth i L dreg) + snd (nth i L dreg) /\ off = a - fst (nth i L dreg) /\ n = c) /\
+  (forall i off, gm_get_host_address_fl find own L a = Val (inl (i, off)) ->
+     find L a = Some i /\ off = a - fst (nth i L dreg)).
+Proof. exact flavour_grants_only_inside. Qed.
+
+(* the flavour that writes both methods IS the model the theorems above (C02_host_address,
+   C02_get_slice_iff, the mmap instances) speak about *)
+Theorem C02_flavour_own_is_base : forall (find : layout -> N -> option nat) L a c,
+  gm_get_host_address_fl find true L a = gm_get_host_address find L a /\
+  gm_get_slice_fl find true L a c = gm_get_slice find L a c.
+Proof. exact flavour_own_is_base_lemma. Qed.
+
 (* non-vacuity: a collection that is not in address order, with a region at 0, touching regions
    and a region ending exactly at 2^64 satisfies the hypotheses; the range that would wrap is refused *)
 Example C02_nonvacuous :
@@ -140,6 +210,13 @@ Example C02_nonvacuous :
 Proof. exact nonvacuous_lemma. Qed.
 
 Print Assumptions C02_model_ok.
+Print Assumptions C02_region_host_address.
+Print Assumptions C02_region_get_slice.
+Print Assumptions C02_region_as_volatile_slice.
+Print Assumptions C02_flavour_host_address.
+Print Assumptions C02_flavour_get_slice.
+Print Assumptions C02_flavour_grants_only_inside.
+Print Assumptions C02_flavour_own_is_base.
 Print Assumptions C02_linear_find_contract.
 Print Assumptions C02_find_iff.
 Print Assumptions C02_find_none_iff.
